@@ -86,6 +86,9 @@ def families(tier):
         hs = [dict(bus='A', pat='P', name='hp', prog=hp), dict(bus='A', pat='C', name='hc', prog=[('disp', 'A', 'G', 'ff', {'parent': 'P'})]),
               dict(bus='A', pat='G', name='hg', prog=[('ret', 1)])]
         add('c09.redispatch', shape, {'A': {}}, hs, [('disp', 'A', 'P', 'await'), ('disp', 'A', 'X', 'ff')])
+    # the grammar-generated corpus shared by the bus properties (vsched/gen.py), judged by this property's oracle
+    from .. import gen
+    out += gen.family('C09', tier, timeouts=(None, 0.5))
     return out
 
 
